@@ -565,7 +565,13 @@ pub fn rand_dest(r: &mut Rng, used: &mut std::collections::BTreeSet<String>, idx
 
 pub fn gen_cfg(r: &mut Rng, o: &GenOpts) -> BuildCfg {
     let mut cfg = BuildCfg {
-        name: ["pkg", "my-package", "lib.foo2", "a", "x_y+z"][r.usize(5)].to_string(),
+        // now and then a name that fills or overflows the 66-byte name field of the lead
+        name: if r.chance(1, 10) {
+            let n = [64usize, 65, 66, 67, 80, 200][r.usize(6)];
+            if r.bool() { "n".repeat(n) } else { format!("{}{}", "m".repeat(n - 2), ["é", "ü"][r.usize(2)]) }
+        } else {
+            ["pkg", "my-package", "lib.foo2", "a", "x_y+z"][r.usize(5)].to_string()
+        },
         version: ["1", "1.0.0", "2.3~rc1", "0.0.1^git1", "20240101"][r.usize(5)].to_string(),
         license: ["MIT", "Apache-2.0 OR MIT", "GPL-2.0-or-later"][r.usize(3)].to_string(),
         arch: ["x86_64", "noarch", "aarch64"][r.usize(3)].to_string(),
